@@ -1,4 +1,6 @@
-(* Properties_C17.v — completed rock entries survive a clean restart. Statements only; proofs in DiskcrashProofs.v. *)
+(* Properties_C17.v — completed rock entries survive a clean restart. Statements only; proofs in DiskcrashProofs.v.
+   survives N P ss s: with ALL slot writes of the workload on disk (clean shutdown), after Rock::Rebuild a request
+   for s's key is a hit whose bytes are exactly s's stored stream. *)
 Require Import SquidV.Bytes SquidV.DiskcrashModel SquidV.DiskcrashProofs.
 Local Open Scope Z_scope.
 
@@ -9,3 +11,14 @@ Theorem C17_rock_overwrite_by_smaller_survives_refuted :
                     ~ survives N P (sessions_of N P ops) s.
 Proof. exact survives_refuted. Qed.
 Print Assumptions C17_rock_overwrite_by_smaller_survives_refuted.
+
+(* PARTIAL (what is missing: slot reuse after purges/overwrites, ufs): for ALL workloads whose stores write every
+   slot at most once, every stored entry is a hit with identical bytes after a clean restart. *)
+Theorem C17_rock_write_once_entries_survive_partial :
+  forall N P ops, write_once N P (sessions_of N P ops) ->
+  forall s, In s (sessions_of N P ops) -> survives N P (sessions_of N P ops) s.
+Proof. intros N P ops H. exact (write_once_survives N P _ H). Qed.
+Print Assumptions C17_rock_write_once_entries_survive_partial.
+
+Example C17_ex_write_once : write_once 8 4 (sessions_of 8 4 ex_ops).
+Proof. exact ex_write_once. Qed.
